@@ -12,9 +12,8 @@ EXPLANATION = (
     "A's followed by B's with maps shifted."
 )
 BOUNDS = {
-    "quick": "(A free 2 characters + newline, B from a 7-document menu) and (A from a 14-document menu, B free 2 characters + newline), js-default; "
-             "menu x menu with one free character in A",
-    "thorough": "A free 3 / B free 3; menu x menu with one free character on each side; commonmark and js-default",
+    "quick": 'A = 2 free characters + newline with 4 concrete B; 7 concrete A (paragraph, tight list, nested list, quote with lazy line, setext, table, nested containers) with B = 2 free characters + newline; 15 A (one free character each) x {paragraph, list} and paragraph x table with a free character in B; js-default',
+    "thorough": 'all quick jobs (core) plus the deeper families of thorough_extra() (not core): more free characters, the commonmark preset, the contexts the quick tier had to shed (DESIGN.md 10.5)',
 }
 OUTSIDE = "larger free A/B; children of inline tokens (excluded by the statement)"
 ASSUMPTIONS = ["no tab/CR/NUL", "B[0] is not a space or newline", "A ends closed (decided by the real parser)",
